@@ -408,10 +408,15 @@ func (p *provider) updateStatus(
 		return
 	}
 
-	// if there is an error, it is always of the below type
+	// errors reported by the API server are of the below type. Everything else,
+	// like e.g. connection errors, cannot be handled here
 	var statusErr *errors2.StatusError
 
-	errors.As(err, &statusErr)
+	if !errors.As(err, &statusErr) {
+		p.l.Warn().Err(err).Msgf("Failed updating RuleSet status")
+
+		return
+	}
 
 	switch statusErr.ErrStatus.Code {
 	case http.StatusNotFound:
